@@ -34,9 +34,9 @@ ANCHORS = [
     "stereomolgraph.experimental:topological_symmetry_number",
 ]
 REQUIRED_ANCHORS = ANCHORS
-REQUIRED = ["pairs_small", "pairs_symmetric", "symmetry_numbers", "reverts", "nonempty_answers", "empty_answers", "group_closure_checked", "labels:default", "labels:colour", "labels:constant", "pairs_regular", "scale_cases", "pairs_twins"]
+REQUIRED = ["pairs_small", "pairs_symmetric", "symmetry_numbers", "reverts", "nonempty_answers", "empty_answers", "group_closure_checked", "labels:default", "labels:colour", "labels:constant", "labels:colliding", "pairs_regular", "scale_cases", "pairs_twins"]
 CASE_TIMEOUT = 120
-LABELS = ("default", "colour", "constant", "element", "element+degree")
+LABELS = ("default", "colour", "constant", "element", "element+degree", "colliding")
 _diag = {"on": False, "bad": 0, "updates": 0, "reverts": 0}
 
 
@@ -160,6 +160,10 @@ def _labels(kind, g, pg, stereo, change=False):
     elif kind == "element+degree":
         nb = sem.pg_neighbors(pg)
         lab = {a: int(v["atom_type"]) * 100 + len(nb[a]) for a, v in pg["atoms"].items()}
+    elif kind == "colliding":
+        # caller labels that are different but hash alike in CPython: -1 / -2 and 5 / 5 + 2**61 - 1 (per element)
+        table = {1: -1, 6: -2, 8: 5, 7: 5 + 2**61 - 1}
+        lab = {a: table.get(int(v["atom_type"]), int(v["atom_type"])) for a, v in pg["atoms"].items()}
     else:  # colour refinement exactly as the classes' __eq__ builds them
         from stereomolgraph.algorithms import color_refine as cr
 
